@@ -62,7 +62,7 @@ try:
         if results[p].get("why"):
             print("   why:", results[p]["why"][0][:300])
 finally:
-    sh("git -C /repo checkout -- . && git -C /repo clean -fdq src")
+    sh("git -C /repo reset -q --hard HEAD && git -C /repo clean -fdq src")
 assert sh("git -C /repo status --porcelain")[1].strip() == ""
 meta["checks"] = results
 meta["caught_by"] = [p for p, r in results.items() if r["exit"] != 0]
